@@ -141,8 +141,38 @@ let run_acc tid ps psd steps : string =
         end) steps;
       Buffer.contents out
 
+(* ---- C10: string (map-backed) vs bytes (slice-backed) variants *)
+let slice_schema = lazy (RegBytesModel.to_slice schema)
+
+let run_brw san tid h : string =
+  let b = bytes_of_hex h in
+  let t = nat_of_int tid in
+  let rw sch =
+    (match dec1 (fuel_for b) san sch t false [] b with
+     | Some (Ok (v, rest)) ->
+         (match enc1 false sch t false [] v with
+          | Some w -> (Some v, "ok:" ^ string_of_int (List.length b - List.length rest) ^ ":" ^ hex_of_bytes w)
+          | None -> (Some v, "writeerr"))
+     | r -> (None, show_dres r)) in
+  let (vs, rs) = rw schema in
+  let (vb, rb) = rw (Lazy.force slice_schema) in
+  let sorted = (match vb with Some v -> if RegBytesModel.dicts_sorted schema t v then "1" else "0" | None -> "-") in
+  let normok = (match vs, vb with
+                | Some a, Some b' -> if RegBytesModel.norm schema t b' = a then "1" else "0"
+                | _ -> "-") in
+  Printf.sprintf "s=%s b=%s sorted=%s norm=%s" rs rb sorted normok
+
 let run toks =
   match toks with
+  (* brw <san> <tid> <name> <hex> : read boxed + rewrite with the string variant and with the bytes variant *)
+  | ["brw"; san; tid; _name; h] -> run_brw (san = "1") (int_of_string tid) h
+  (* encb <san> <tid> <name> <boxed> <ps..> | <value> : writer of the bytes variant (dictionaries are vectors) *)
+  | "encb" :: san :: tid :: _name :: boxed :: rest ->
+      let (ps, vt) = split_bar rest [] in
+      let (v, _) = parse_value vt in
+      (match enc1 (san = "1") (Lazy.force slice_schema) (nat_of_int (int_of_string tid)) (boxed = "0") (List.map n_of_dec ps) v with
+       | Some b -> "ok " ^ hex_of_bytes b
+       | None -> "none")
   (* acc <tid> <path> <nps> <ps..> <psd..> <nf> <names..> | <steps..> *)
   | "acc" :: tid :: _path :: nps :: rest ->
       let n = int_of_string nps in
